@@ -152,7 +152,10 @@ def find_knn_scans(w: Walker) -> List[KnnScan]:
 def unclamp_k(w, G: Term):
     """min(best_k, n_nodes) / min(best_k, n_nodes - 1) is best_k for every model fit can produce (a sample has at most
     n - 1 neighbours): the view reads the clamp as best_k.  A clamp by anything else (the query batch, ...) is left alone."""
-    from .ir import substitute_view
+    from .ir import derived_phis, substitute_view
+    # (a named boolean carried next to the slot counter - `closer = d[cur] < d[cur - 1]` before the loop and at the end of
+    # its body - is that test of the current slot at the loop head)
+    w = substitute_view(w, derived_phis(w))
     bk = ("attr", G, "best_k")
     nn = (("attr", G, "n_nodes"), ("call", ("builtin", "len"), (("attr", G, "nodes"),), ()))
     mapping = {}
@@ -263,6 +266,10 @@ def check_knn_scan(rep, pre: str, scan: KnnScan, graph: Term, allow_self_skip: b
                 and w.repo.constants.get("NIL") == -1:
             # `j != exclude` with exclude = NIL (-1): a position of a node loop is never negative - the test holds always
             rep.guard(pre + "KNN-guard", w, g, ws, True, "a node position never equals NIL")
+        elif t == ("cmp", "<", ws.value, K("FLOAT_MAX")):
+            # `if not d < FLOAT_MAX: continue`: a candidate at the float limit (or NaN) never leaves the scratch slot - every
+            # kept slot is <= FLOAT_MAX - so skipping it before it is written changes none of the k slots that are read
+            rep.guard(pre + "KNN-guard", w, g, ws, True, "a candidate at the float limit never enters the k best")
         else:
             rep.guard(pre + "KNN-guard", w, g, ws, False,
                       "the scan body is guarded: not every node of the graph is a candidate for every query "
